@@ -186,6 +186,17 @@ pub fn c01(eng: &mut Engine, rng: &mut Rng, thorough: bool, out: &mut Out) -> Ca
                 f(&mut r);
                 variants.push((cls, r, Some(false)));
             }
+            // every neighbouring (comparison, threshold) pair: the proof was made for (op0, v0) and for nothing else — also not for a pair
+            // that denotes the same or a nearby set of integers (`> n-1` for `>= n`, `<= n+1` for `< n`, …)
+            if let (Some(op0), Some(v0)) = (r0["requested_predicates"][pkey]["p_type"].as_str(), r0["requested_predicates"][pkey]["p_value"].as_i64()) {
+                for op in [">=", ">", "<=", "<"] { for dv in -2i64..=2 {
+                    if op == op0 && dv == 0 { continue; }
+                    let mut r = r0.clone();
+                    r["requested_predicates"][pkey]["p_type"] = json!(op);
+                    r["requested_predicates"][pkey]["p_value"] = json!(v0 + dv);
+                    variants.push(("pred:grid", r, Some(false)));
+                } }
+            }
             // same normal form, other spelling: the same attribute — judged by the model only
             let mut r = r0.clone();
             r["requested_attributes"]["a_name"]["name"] = json!(format!(" {} ", vals[0].0.to_uppercase()));
